@@ -30,9 +30,19 @@ IDS = ['NM1', 'N3', 'REF', 'HL', 'CLM', 'SV1', 'DTP', 'K3', 'B2A', 'LX', 'AK4', 
 ALPHA = 'ABCDEFGHIJKLMNOPQRSTUVWXYZ0123456789 abcxyz.-/()&\'"<>#@'
 
 
-def isa_text(terms, icvn='00401'):
+def isa_text(terms, icvn='00401', rng=None):
     seg_t, ele_t, sub_t = terms
-    els = ['00', ' ' * 10, '00', ' ' * 10, 'ZZ', 'SENDER'.ljust(15), 'ZZ', 'RECEIVER'.ljust(15), '040608', '1333',
+    f2, f6, f8 = ' ' * 10, 'SENDER'.ljust(15), 'RECEIVER'.ljust(15)
+    if rng is not None and rng.random() < 0.35 and sub_t not in '\r\n':
+        # the component separator is ordinary data inside the ISA (it is never split there), also as last character of a field
+        k = rng.choice([0, 1, 2])
+        if k == 0:
+            f6 = ('SEND' + sub_t + 'ER').ljust(15)
+        elif k == 1:
+            f8 = 'RECEIVER'.ljust(14) + sub_t
+        else:
+            f2 = (sub_t + 'PW' + sub_t).ljust(10)
+    els = ['00', f2, '00', ' ' * 10, 'ZZ', f6, 'ZZ', f8, '040608', '1333',
            'U' if icvn == '00401' else [c for c in '^}{\\' if c not in terms][0], icvn, '000000001', '0', 'P', sub_t]
     return ele_t.join(['ISA'] + els) + seg_t
 
@@ -45,7 +55,7 @@ def soup(rng, quick):
     terms = (seg_t, ele_t, sub_t)
     alpha = ''.join(c for c in ALPHA if c not in terms)
     eol = rng.choice(reencode.EOLS) if seg_t not in '\r\n' else ''
-    out = [isa_text(terms, rng.choice(['00401', '00501'])), eol]
+    out = [isa_text(terms, rng.choice(['00401', '00501']), rng), eol]
     feats = set()
     nseg = rng.randint(3, 40)
     target = rng.choice([None, None, 8190, 8191, 0, 1, 2])
